@@ -220,6 +220,14 @@ pub fn buildings(r: &mut Rng, n: usize, findings: &mut Vec<Value>, texts: &mut V
         if let Some(m) = &fmult {
             a.push(("MULTIPLIER".into(), m.clone()));
         }
+        // the floor-to-floor height HULC also writes: equal to SPACE-HEIGHT, 0 (old LIDER) or another value
+        // (a plenum); the spaces take SPACE-HEIGHT
+        match r.below(4) {
+            0 => a.push(("FLOOR-HEIGHT".into(), fh.clone())),
+            1 => a.push(("FLOOR-HEIGHT".into(), "0".into())),
+            2 => a.push(("FLOOR-HEIGHT".into(), "3.75".into())),
+            _ => {}
+        }
         o.block(r, "P01", "FLOOR", &mut a);
         // up to 14 vertices: V10.. sort before V2 in the attribute map
         let nv = 3 + r.below(12);
